@@ -971,8 +971,8 @@ theorem closeRequeueStage_pres (e9 : Engine) : Pres e9 e9.closeRequeueStage.1 :=
   simp only [] at h13 ⊢
   exact h13.trans (Pres.of_core_eq rfl)
 
-theorem handleClosed_pres (e : Engine) : Pres e e.handleClosed.1 := by
-  unfold Engine.handleClosed
+theorem handleClosedCore_pres (e : Engine) : Pres e e.handleClosedCore.1 := by
+  unfold Engine.handleClosedCore
   split
   · exact Pres.refl _
   · simp only []
@@ -1592,6 +1592,19 @@ theorem processAckTimeouts_pres : ∀ (fuel : Nat) (e : Engine), Pres e (Engine.
         simp only [] at h2 ⊢
         exact h2.trans (ih e2)
       · exact Pres.refl _
+
+theorem handleClosed_pres (e : Engine) : Pres e e.handleClosed.1 := by
+  unfold Engine.handleClosed
+  split
+  · exact Pres.refl _
+  · have h0 := processAckTimeouts_pres (e.timeouts.length + 1) e
+    generalize Engine.processAckTimeouts (e.timeouts.length + 1) e = x0 at h0 ⊢
+    obtain ⟨ea, ra⟩ := x0
+    simp only [] at h0 ⊢
+    have h1 := handleClosedCore_pres ea
+    generalize ea.handleClosedCore = x1 at h1 ⊢
+    obtain ⟨eb, rb⟩ := x1
+    exact h0.trans h1
 
 theorem serviceCore_pres (e : Engine) (cap prefill : Nat) : Pres e (e.serviceCore cap prefill).1 := by
   unfold Engine.serviceCore
